@@ -490,6 +490,9 @@ func c20Run(env *core.Env, idx int) core.CaseResult {
 		small := spec.SchemaValidations{}
 		small.Enum = []interface{}{"verif-other-value"}
 		c.set(small)
+		if gotSmall, _ := oracle.Norm(c20Flatten(c.get())); !oracle.Equal(gotSmall, map[string]interface{}{"enum": func() interface{} { n, _ := oracle.Norm(c20Flatten(small)["enum"]); return n }()}) {
+			res.Violate("overwrite-leaves-stale-validations "+c.name(), fmt.Sprintf("wrote a set holding a one-value enum only over an object that carried more; it reads back %s", core.Abbrev(oracle.Text(gotSmall), 200)), witness(variant, nil, 0))
+		}
 		c.set(snap)
 		res.Evals++
 		res.Count("op.snapshot-overwrite-restore", 1)
